@@ -143,13 +143,36 @@ func (fdb *fsDb) Put(ctx context.Context, key []byte, val []byte) error {
 	}
 	logg.TraceCtxf(ctx, "fs put", "key", key, "lk", lk, "flk", flk, "val", val)
 	if flk.Translation != "" {
-		err = ioutil.WriteFile(flk.Translation, val, 0600)
+		err = writeFile(flk.Translation, val)
 		if err != nil {
 			return err
 		}
 		return nil
 	}
-	return ioutil.WriteFile(flk.Default, val, 0600)
+	return writeFile(flk.Default, val)
+}
+
+// writeFile replaces the file at fp with val in one step: the value is written to a
+// temporary file in the same directory, which is then renamed over fp. A reader (or a
+// process restarted after a crash) finds either the previous content or the new one,
+// never an empty or partially written file.
+func writeFile(fp string, val []byte) error {
+	f, err := os.CreateTemp(path.Dir(fp), ".tmp-*")
+	if err != nil {
+		return err
+	}
+	tmp := f.Name()
+	_, err = f.Write(val)
+	if cerr := f.Close(); err == nil {
+		err = cerr
+	}
+	if err == nil {
+		err = os.Rename(tmp, fp)
+	}
+	if err != nil {
+		os.Remove(tmp)
+	}
+	return err
 }
 
 // Close implements the Db interface.
